@@ -590,6 +590,8 @@ func resolveObjectBatch(ctx context.Context, sources []interface{}, typ *Object,
 				destinations: destForSelection,
 				selection:    &Selection{},
 				objectName:   typ.Name,
+				// A key made with BatchFieldFunc has no Resolve of its own.
+				useBatch: shouldUseBatch(ctx, typ.KeyField),
 			})...,
 		)
 	}
